@@ -79,7 +79,7 @@ func helperFuncs(p *load.Program) []*ssa.Function {
 
 func runC08(c *core.Ctx) {
 	runFixtures(c, "drop", "read")
-	c.Explain("Structural clauses of C08 decided from source for every package-level helper of hackpadfs whose first parameter is an FS or a File (and the unexported functions only they reach): (R08.1) for every call that returns an error — other helpers, interface methods, File methods — on every path on which that error is non-nil the helper returns it, wraps it, hands it on, returns another definitely non-nil error, or consumes it through an enumerated idiom (errors.Is(ErrNotExist) inside RemoveAll's recursion, errors.Is(ErrExist) inside MkdirAll, errors.Is(ErrNotImplemented) to try the next capability, closing a read-only handle); a nil/may-be-nil return on such a path is a violation ('a helper never reports success for work that was not done'); (R08.3) the path on which every capability assertion of a helper failed returns a *PathError/*LinkError carrying ErrNotImplemented or enters the documented fallback; (R08.4, contradiction rule) inside one helper all calls of the same fallible callee consult the same sentinels (errors.Is) on its error — if one Mkdir site tolerates ErrExist and another returns it, the fallback answers 'already there' differently from the optimised implementation; (R08.5, sibling agreement) a mode/flag/perm/time parameter of a helper reaches every delegate that receives it as the parameter itself — a branch that passes 'mode & K' where its siblings pass 'mode' makes the result depend on the capability subset; (R08.6) the recursive removal behind RemoveAll takes its 'is a directory' decision from Lstat/LstatOrStat, never from Stat; (R08.7) among the helpers that take a File only SeekFile invokes Seek (no positioned operation is emulated by moving the handle's position). (R08.8) in the helper OpenFile every call of fs.Open is dominated by the test flag == FlagReadOnly (a mask test forgets the flags outside the mask); (R08.10) every sub-path the generic Sub view returns is the name itself, the base, or path.Join of them; (R08.9) every direct call of a Read([]byte)(int, error) method in the package is a delegation that hands the count to its caller, or sits in a loop that is left only on an error / a full buffer and whose successful returns looked at the count of the latest Read — a helper that replaces io/fs.ReadFile or io.Copy by one sized Read reports success for content it did not read. (R08.11) a helper asserts the operation's own interface before MountFS; (R08.12) Create's fallback uses os.Create's flags. NOT claimed: equality of results and final state between the optimised path and the fallback across the 2^k capability subsets.")
+	c.Explain("Structural clauses of C08 decided from source for every package-level helper of hackpadfs whose first parameter is an FS or a File (and the unexported functions only they reach): (R08.1) for every call that returns an error — other helpers, interface methods, File methods — on every path on which that error is non-nil the helper returns it, wraps it, hands it on, returns another definitely non-nil error, or consumes it through an enumerated idiom (errors.Is(ErrNotExist) inside RemoveAll's recursion, errors.Is(ErrExist) inside MkdirAll, errors.Is(ErrNotImplemented) to try the next capability, closing a read-only handle); a nil/may-be-nil return on such a path is a violation ('a helper never reports success for work that was not done'); (R08.3) the path on which every capability assertion of a helper failed returns a *PathError/*LinkError carrying ErrNotImplemented or enters the documented fallback; (R08.4, contradiction rule) inside one helper all calls of the same fallible callee consult the same sentinels (errors.Is) on its error — if one Mkdir site tolerates ErrExist and another returns it, the fallback answers 'already there' differently from the optimised implementation; (R08.5, sibling agreement) a mode/flag/perm/time parameter of a helper reaches every delegate that receives it as the parameter itself — a branch that passes 'mode & K' where its siblings pass 'mode' makes the result depend on the capability subset; (R08.6) the recursive removal behind RemoveAll takes its 'is a directory' decision from Lstat/LstatOrStat, never from Stat; (R08.7) among the helpers that take a File only SeekFile invokes Seek (no positioned operation is emulated by moving the handle's position). (R08.8) in the helper OpenFile every call of fs.Open is dominated by the test flag == FlagReadOnly (a mask test forgets the flags outside the mask); (R08.10) every sub-path the generic Sub view returns is the name itself, the base, or path.Join of them; (R08.9) every direct call of a Read([]byte)(int, error) method in the package is a delegation that hands the count to its caller, or sits in a loop that is left only on an error / a full buffer and whose successful returns looked at the count of the latest Read — a helper that replaces io/fs.ReadFile or io.Copy by one sized Read reports success for content it did not read. (R08.11) a helper asserts the operation's own interface before MountFS; (R08.12) Create's fallback uses os.Create's flags. (R08.13) = R06.3 pairing under C08. NOT claimed: equality of results and final state between the optimised path and the fallback across the 2^k capability subsets.")
 	c.Assume("A1: interface-dispatched FS/File methods return nil error only when the operation was done", "A6: partial correctness")
 	c.RuleDoc("R08.1", "no primitive error dropped on any failing path of a helper")
 	c.RuleDoc("R08.4", "sibling calls of one callee inside a helper consult the same sentinels")
